@@ -21,7 +21,8 @@ AW = {"T": 8, "F": 4, "R": 1, "BR": 1, "CT": 1, "CF": 1, "CR": 0.5}
 
 
 run_directed = directed.run
-NEIGHBOURS = [{"from": "C04", "limit": 1500, "why": "inherited postconditions as built by the real metaclass gate the return"},
+NEIGHBOURS = [{"from": "C10", "limit": 500, "why": "calls made by a BODY - recursive ones included - are fully checked: their postconditions gate their returns"},
+              {"from": "C04", "limit": 1500, "why": "inherited postconditions as built by the real metaclass gate the return"},
               {"from": "C18", "limit": 400, "why": "postconditions below foreign wrappers / of late decorated classes gate the return"},
               {"from": "C13", "limit": 400, "why": "postconditions of async callables are awaited and judged"},
               {"from": "C11", "limit": 400, "why": "after an exception postconditions gate the following calls again"},
